@@ -80,3 +80,115 @@ Example grown_refinement_differs :
   let base := Leaf [(0, 1)] 1 in let t := OAlt base (Leaf [(1, 1)] 2) in let r := RN [(2, 1)] 3 BNil in
   reenter KRef r t <> build_n r (do_ref t 1 (Leaf (ncond r) (ntag r))).
 Proof. cbv. discriminate. Qed.
+
+(* ================= every kind of statement written after re-entering, ONE per session =================
+   Each later session holds one top-level statement (with a block of its own, of any shape).  Re-entering attaches at the
+   conditions root: a refinement then refines the WHOLE tree built so far (where anything fired, its conclusion is replaced by
+   the refinement's where the refinement applies), an alternative applies where nothing fired.  [sel_grown] is that reading as a
+   function of the conclusion selected so far. *)
+From EQL Require Import RuleTree_Facts.
+
+Fixpoint sel_grown (v : option nat) (later : rbody) (x : item) : option nat :=
+  match later with
+  | BNil => v
+  | BCons KRef n rest => sel_grown (match v with None => None | Some c => Some (match rdr n x with Some c' => c' | None => c end) end) rest x
+  | BCons KAlt n rest => sel_grown (match v with Some c => Some c | None => rdr n x end) rest x
+  end.
+
+Lemma ttags_plug k : forall u t, In t (ttags (plug k u)) -> In t (ttags u) \/ In t (ktags k).
+Proof.
+  induction k as [|f k IH]; intros u t H; cbn [plug] in H; [now left|].
+  apply IH in H as [H|H]; [|right; cbn [ktags flat_map]; apply in_app_iff; now right].
+  destruct f; cbn [plug1 ttags] in H; apply in_app_iff in H as [H|H]; cbn [ktags flat_map ftags];
+    try (now left); right; apply in_app_iff; now left.
+Qed.
+
+(* a refinement written after re-entering: ExceptIf(the whole tree, the refinement with its own block) *)
+Lemma reenter_ref n t : NoDup (tags_n n) -> (forall g, In g (tags_n n) -> ~ In g (ttags t)) ->
+  reenter KRef n t = OExc t (chain_t n).
+Proof.
+  intros N F. destruct n as [c tag b]. unfold reenter. cbn [build_n ncond ntag nbody chain_t tags_n] in *.
+  inversion N as [|? ? Ht Nb]; subst.
+  pose proof (proj2 build_all b [FExcR t] [] c tag) as B. cbn [app plug plug1] in B. apply B.
+  - reflexivity.
+  - reflexivity.
+  - cbn [ktags flat_map ftags]. rewrite app_nil_r. apply F. now left.
+  - intros g Hg. split; [intros ->; contradiction|]. cbn [ktags flat_map ftags]. rewrite app_nil_r. apply F. now right.
+  - exact Nb.
+Qed.
+
+(* an alternative written after re-entering: the chain Alternative(the whole tree, the new branch), continued by its block *)
+Lemma reenter_alt n t : NoDup (tags_n n) -> (forall g, In g (tags_n n) -> ~ In g (ttags t)) ->
+  reenter KAlt n t = alts_t (OAlt t (exc_t (Leaf (ncond n) (ntag n)) (nbody n))) (nbody n).
+Proof.
+  intros N F. destruct n as [c tag b]. unfold reenter. cbn [build_n ncond ntag nbody tags_n] in *.
+  inversion N as [|? ? Ht Nb]; subst.
+  pose proof (proj2 build_all b [] [FAltR t] c tag) as B. cbn [app plug plug1] in B. apply B.
+  - exact I.
+  - reflexivity.
+  - cbn [ktags flat_map ftags]. rewrite app_nil_r. apply F. now left.
+  - intros g Hg. split; [intros ->; contradiction|]. cbn [ktags flat_map ftags]. rewrite app_nil_r. apply F. now right.
+  - exact Nb.
+Qed.
+
+Lemma fire_reenter k n t x : NoDup (tags_n n) -> (forall g, In g (tags_n n) -> ~ In g (ttags t)) ->
+  fire (reenter k n t) x = sel_grown (fire t x) (BCons k n BNil) x.
+Proof.
+  intros N F. destruct k; cbn [sel_grown].
+  - rewrite (reenter_ref n t N F). cbn [fire]. rewrite intended_tree_rdr. destruct (fire t x) as [c|]; [|reflexivity].
+    destruct (rdr n x); reflexivity.
+  - rewrite (reenter_alt n t N F). destruct (proj1 tree_sem_all n) as [[En An] _]. rewrite An. cbn [fire]. rewrite En. cbn [fire].
+    destruct n as [c tag b]. cbn [ncond ntag nbody]. unfold rdr. cbn [chain_sel].
+    destruct (fire t x) as [c0|]; [reflexivity|]. destruct (holds c x); [reflexivity|]. destruct (alt_sel b x); reflexivity.
+Qed.
+
+(* the tags of the tree after a statement was attached: those before plus the statement's *)
+Lemma ttags_reenter k n t g : NoDup (tags_n n) -> (forall g', In g' (tags_n n) -> ~ In g' (ttags t)) ->
+  In g (ttags (reenter k n t)) -> In g (ttags t) \/ In g (tags_n n).
+Proof.
+  intros N F H. destruct k.
+  - rewrite (reenter_ref n t N F) in H. cbn [ttags] in H. apply in_app_iff in H as [H|H]; [now left | right].
+    apply (proj1 tags_intended_all n) in H. exact H.
+  - rewrite (reenter_alt n t N F) in H. rewrite alts_t_frames in H. apply ttags_plug in H as [H|H].
+    + cbn [ttags] in H. apply in_app_iff in H as [H|H]; [now left | right]. destruct n as [c tag b]. cbn [ncond ntag nbody tags_n] in *.
+      apply (proj1 (proj2 tags_intended_all b)) in H as [H|H]; [cbn [ttags] in H; destruct H as [<-|[]]; now left | now right].
+    + right. destruct n as [c tag b]. cbn [nbody tags_n]. right. now apply (proj2 (proj2 tags_intended_all b)).
+Qed.
+
+Theorem grown_sessions later : forall t x, NoDup (tags_b later) -> (forall g, In g (tags_b later) -> ~ In g (ttags t)) ->
+  fire (grow later t) x = sel_grown (fire t x) later x.
+Proof.
+  induction later as [|k n rest IH]; intros t x N F; cbn [grow]; [reflexivity|].
+  cbn [tags_b] in N, F.
+  assert (Nn : NoDup (tags_n n)) by (eapply nodup_app_l; exact N).
+  assert (Nr : NoDup (tags_b rest)) by (eapply nodup_app_r; exact N).
+  assert (Fn : forall g, In g (tags_n n) -> ~ In g (ttags t)) by (intros g Hg; apply F; apply in_app_iff; now left).
+  rewrite IH.
+  - rewrite (fire_reenter k n t x Nn Fn). destruct k; reflexivity.
+  - exact Nr.
+  - intros g Hg X. apply (ttags_reenter k n t g Nn Fn) in X as [X|X].
+    + apply (F g); [apply in_app_iff; now right | exact X].
+    + exact (nodup_app_disj _ _ g N X Hg).
+Qed.
+
+(* ---- running a grown case: the base program (one session), then one statement per later session ---- *)
+Open Scope string_scope.
+Definition run_gcase (n : nat) (base : rnode) (later : rbody) (dom : list (nat * item)) : string :=
+  match build_checked base with
+  | None => "CASE " ++ show_nat n ++ " M UNMODELLED-BUILDERS  S - " ++ rows_of (fun x => sel_grown (rdr base x) later x) dom
+  | Some t =>
+  "CASE " ++ show_nat n ++ " M " ++ show_tree (grow later t) ++ " " ++ rows_of (fire (grow later t)) dom
+          ++ " S " ++ show_tree (grow later t) ++ " " ++ rows_of (fun x => sel_grown (rdr base x) later x) dom
+  end.
+Close Scope string_scope.
+
+(* the whole history: the base program written in the first session, then one statement per session *)
+Theorem grown_program base later x : NoDup (tags_n base ++ tags_b later) ->
+  fire (grow later (build base)) x = sel_grown (rdr base x) later x.
+Proof.
+  intros N. pose proof (nodup_app_l _ _ N) as Nb. pose proof (nodup_app_r _ _ N) as Nl.
+  rewrite (build_is_intended base Nb). rewrite grown_sessions.
+  - now rewrite intended_tree_rdr.
+  - exact Nl.
+  - intros g Hg X. apply (proj1 tags_intended_all base) in X. exact (nodup_app_disj _ _ g N X Hg).
+Qed.
